@@ -1,6 +1,7 @@
 package main
 
 import (
+	"sort"
 	"regexp"
 	"encoding/json"
 	"fmt"
@@ -26,7 +27,8 @@ func init() {
 // stated here by itself, and the rules for the construct concerned see the rest.)
 func c18m(c *Ctx) {
 	var cat struct {
-		Messages map[string]int `json:"messages"` // message template -> number of sites reviewed
+		Messages map[string]int      `json:"messages"` // message template -> number of sites reviewed
+		Kinds    map[string][]string `json:"kinds"`    // message template -> for each site, the token kinds the current / next token is known NOT to be when the rejection is reached
 	}
 	b, err := os.ReadFile(filepath.Join(verifDirGlobal, "rejections.json"))
 	if err != nil || json.Unmarshal(b, &cat) != nil {
@@ -35,6 +37,7 @@ func c18m(c *Ctx) {
 	}
 	known := cat.Messages
 	seen := map[string]int{}
+	sigs := map[string][]string{}
 	n := 0
 	var fns []*ssa.Function
 	for _, pkg := range []string{"lexer", "parser", "emitter"} {
@@ -87,6 +90,25 @@ func c18m(c *Ctx) {
 			}
 			seen[tmpl]++
 			key := fmt.Sprintf("rejection[%s]#%d", tmpl, seen[tmpl])
+			// under which token kinds the rejection is reached: "expected X" is raised when the
+			// token at hand is none of the kinds that are accepted there. Narrowing that set (a
+			// number is no longer a case label) turns programs away with an old message.
+			{
+				kinds := map[string]bool{}
+				for _, l := range c.mustLits(fn, ci.Block()) {
+					l = verRe.ReplaceAllString(l, "")
+					if m := notKindRe.FindStringSubmatch(l); m != nil {
+						kinds[m[1]+":"+m[2]] = true
+					}
+				}
+				var ks []string
+				for k := range kinds {
+					ks = append(ks, k)
+				}
+				sort.Strings(ks)
+				sig := strings.Join(ks, ",")
+				sigs[tmpl] = append(sigs[tmpl], sig)
+			}
 			// several reviewed messages that differ in a constant word may be produced by one
 			// site with that word as an operand (`invalid %s '%s'` for maxLineLength, numLines,
 			// …): the template then generalises messages of the catalogue and brings no new one
@@ -111,9 +133,60 @@ func c18m(c *Ctx) {
 			c.Check(seen[tmpl] <= known[tmpl], key, c.W.Pos(ci.Pos()), "a reviewed reason to reject", fn.Name()+" rejects with a message that is not in the reviewed catalogue, or at one more place than reviewed ("+pretty(tmpl)+"): a program that compiled before may now be turned away — every property is stated for all programs, so a new rejection has to be reviewed (and added to rejections.json) like a change of the language")
 		}
 	}
+	// the accepted kinds at each reviewed message are the reviewed ones (as a multiset over the sites
+	// of the message: sites may move between functions)
+	for tmpl, want := range cat.Kinds {
+		got := append([]string{}, sigs[tmpl]...)
+		if len(got) == 0 {
+			continue
+		}
+		w := append([]string{}, want...)
+		sort.Strings(got)
+		sort.Strings(w)
+		// every site found must be matched by a reviewed site that turned away at least as much: the
+		// kinds the reviewed site excluded are still excluded (a site reached under fewer
+		// exclusions rejects tokens that used to be accepted)
+		used := make([]bool, len(w))
+		var bad []string
+		for _, g := range got {
+			ok := false
+			for i, x := range w {
+				if used[i] {
+					continue
+				}
+				if kindsSubset(x, g) {
+					used[i], ok = true, true
+					break
+				}
+			}
+			if !ok {
+				bad = append(bad, "["+g+"]")
+			}
+		}
+		c.Check(len(bad) == 0, "rejection-kinds["+tmpl+"]", "-", "raised for the reviewed token kinds", fmt.Sprintf("the message %q is now raised where the token at hand is none of %v; reviewed: %v — a kind that used to be accepted there is turned away", tmpl, bad, w))
+	}
 	if os.Getenv("PSLINT_GEN_REJECTIONS") != "" {
-		out, _ := json.MarshalIndent(map[string]interface{}{"comment": "reviewed rejection messages of lexer, parser and emitter (message template -> number of sites); generated once from the reviewed tree with PSLINT_GEN_REJECTIONS=<file> pslint -prop C18, extended only after review", "messages": seen}, "", " ")
+		out, _ := json.MarshalIndent(map[string]interface{}{"comment": "reviewed rejection messages of lexer, parser and emitter (message template -> number of sites); generated once from the reviewed tree with PSLINT_GEN_REJECTIONS=<file> pslint -prop C18, extended only after review", "messages": seen, "kinds": cat.Kinds, "kinds_seen": sigs}, "", " ")
 		os.WriteFile(os.Getenv("PSLINT_GEN_REJECTIONS"), out, 0o644)
 	}
 	c.Check(n >= 60, "rejection-sites", "-", fmt.Sprintf("%d rejection sites with %d distinct messages", n, len(seen)), fmt.Sprintf("only %d rejection sites found", n))
+}
+
+var notKindRe = regexp.MustCompile(`^-\(\$0\.(cur|peek\d?)Token\.Type == "([^"]*)"\)$`)
+
+// kindsSubset: every kind named in a is named in b.
+func kindsSubset(a, b string) bool {
+	if a == "" {
+		return true
+	}
+	in := map[string]bool{}
+	for _, k := range strings.Split(b, ",") {
+		in[k] = true
+	}
+	for _, k := range strings.Split(a, ",") {
+		if !in[k] {
+			return false
+		}
+	}
+	return true
 }
